@@ -1,7 +1,8 @@
 """C09 - class prefixing hits every class selector and nothing else (structural half)."""
+import re
 from rules import csspacks as cp
 
-RULE = 'C09.reach = C08.ctx + C08.rules (every nesting depth, every rule-bearing at-rule). C09.flag: in each selector-context loop in_class is set only by the `.` arm, consumed by the identifier arm and reset by every other arm; the value routine never looks at it. C09.only: write_maybe_class_name is called only from selector-context routines, rewrites iff `in_class && class_prefix.is_some()` to `{prefix}--{name}`, writes the sign iff in_class and registers the original identifier as source name.'
+RULE = 'C09.reach = C08.ctx + C08.rules (every nesting depth, every rule-bearing at-rule). C09.flag: in each selector-context loop in_class is set only by the `.` arm, consumed by the identifier arm and reset by every other arm; the value routine never looks at it. C09.only: write_maybe_class_name is called only from selector-context routines, rewrites iff `in_class && class_prefix.is_some()` to `{prefix}--{name}`, writes the sign iff in_class and registers the original identifier as source name. C09.only/detection (shared with C17) and C09.ser (shared with C08): a rule is dropped as a `:host` combination only for an exact `:host`; every non-integer token, identifiers included, is written by the serialiser of cssparser.'
 EXPLANATION = ("The token-dispatch loops of the stylesheet compiler are located by role in the expanded syntax tree and their arms, "
                "flags and field writers (MIR) are checked against the rule; no stylesheet is ever transformed.")
 ASSUMPTIONS = ["cssparser tokenises and serialises per CSS Syntax 3", "refs/css_refs.json lists rule-bearing at-rules and math functions correctly",
@@ -17,4 +18,8 @@ def run(ctx):
     obs += cp.class_flag_rule(ctx, 'C09')
     obs += cp.class_only_rule(ctx, 'C09')
     obs += cp.step_rules(ctx, 'C09')
+    # a rule is dropped as an illegal `:host` combination only for an exact `:host` / `:host(` (its classes would never be emitted);
+    # identifiers - prefixed class names included - are written by cssparser's identifier serialiser (shared with C17 / C08)
+    obs += [o for o in cp.host_rules(ctx, 'C09') if re.search(r"\.only/detection", o["key"])]
+    obs += [o for o in cp.int_rule(ctx, 'C09', writer_only=True) if "/ser/" in o["key"] or ".ser/" in o["key"]]
     return obs
